@@ -76,19 +76,28 @@ func inlinableHelper(pkg *packages.Package, fd *ast.FuncDecl) bool {
 			}
 		}
 	}
-	ok := true
+	return true
+}
+
+// needsOwnFrame: the helper defers or recovers, which is tied to its own
+// function frame: it can only be inlined where it is the target of a go or
+// defer statement (the function literal that replaces it is a frame of its own).
+func needsOwnFrame(fd *ast.FuncDecl) bool {
+	need := false
 	ast.Inspect(fd.Body, func(n ast.Node) bool {
 		switch x := n.(type) {
+		case *ast.FuncLit:
+			return false
 		case *ast.DeferStmt:
-			ok = false
+			need = true
 		case *ast.CallExpr:
 			if id, isId := x.Fun.(*ast.Ident); isId && id.Name == "recover" {
-				ok = false
+				need = true
 			}
 		}
-		return ok
+		return true
 	})
-	return ok
+	return need
 }
 
 // Normalise returns an overlay (path -> content) in which helpers unknown to
@@ -146,6 +155,18 @@ func Normalise(opt LoadOptions, testIdents map[string]bool, loadFn func(map[stri
 				prev[k] = v
 			}
 			for path, content := range redits {
+				overlay[path] = content
+			}
+			changed = true
+			continue
+		}
+		if xedits, xmsgs := exprHelperRound(pkgs, overlay, testIdents); len(xedits) > 0 {
+			log = append(log, xmsgs...)
+			prev = map[string][]byte{}
+			for k, v := range overlay {
+				prev[k] = v
+			}
+			for path, content := range xedits {
 				overlay[path] = content
 			}
 			changed = true
@@ -321,6 +342,18 @@ func inlineRound(pkgs []*packages.Package, overlay map[string][]byte, testIdents
 		for _, s := range sites {
 			if s.pkg != d.pkg || s.caller == d.fd {
 				okAll = false
+			}
+		}
+		if needsOwnFrame(d.fd) {
+			ownFrame := true
+			for _, s := range sites {
+				if s.form != "go" && s.form != "defer" {
+					ownFrame = false
+				}
+			}
+			if !ownFrame {
+				log = append(log, "not inlined (defers or recovers, and is called outside go/defer statements): "+key)
+				continue
 			}
 		}
 		callsCandidate := false
@@ -690,6 +723,13 @@ func classifyForm(stmt ast.Stmt, call *ast.CallExpr) string {
 		if !insideFuncLit(stmt, call) && !inLaterOperand(stmt, call) && !callBefore(stmt, call) {
 			return "hoist"
 		}
+	case *ast.DeclStmt:
+		// var x T = f(…): the call is hoisted in front of the declaration
+		if gd, ok := st.Decl.(*ast.GenDecl); ok && gd.Tok == token.VAR && len(gd.Specs) == 1 {
+			if !insideFuncLit(stmt, call) && !inLaterOperand(stmt, call) && !callBefore(stmt, call) {
+				return "hoist"
+			}
+		}
 	case *ast.IfStmt:
 		if st.Init == nil && st.Else == nil {
 			if be, ok := st.Cond.(*ast.BinaryExpr); ok && be.Op == token.LAND && !nodeContains(be.X, call) {
@@ -931,8 +971,10 @@ func hasNewFunctions(repo string, overlay map[string][]byte) (bool, map[string]b
 			ast.Inspect(f, func(n ast.Node) bool {
 				// a local closure without results that could be called as a statement
 				if as, ok := n.(*ast.AssignStmt); ok && as.Tok == token.DEFINE && len(as.Rhs) == 1 {
-					if lit, ok := as.Rhs[0].(*ast.FuncLit); ok && (lit.Type.Results == nil || len(lit.Type.Results.List) == 0) {
-						found = true
+					if _, ok := as.Rhs[0].(*ast.FuncLit); ok {
+						if key := pkgPath + "\x00closure\x00" + identName(as.Lhs[0]); !anchorClosures[key] {
+							found = true
+						}
 					}
 				}
 				return true
@@ -1147,4 +1189,17 @@ func synSig(fs *token.FileSet, fd *ast.FuncDecl, src []byte) string {
 	}
 	txt := string(src[off(fd.Type.Params.Pos()):off(end)])
 	return strings.Join(strings.Fields(txt), " ")
+}
+
+func identName(e ast.Expr) string {
+	if id, ok := e.(*ast.Ident); ok {
+		return id.Name
+	}
+	return ""
+}
+
+// anchorClosures: local closures of the pinned tree that are values (passed
+// on, not just called) and must not trigger normalisation by themselves.
+var anchorClosures = map[string]bool{
+	"servitor/pub\x00closure\x00constructComment": true,
 }
